@@ -73,6 +73,13 @@ TYPES = {
         ('CChecksum', ['con', 'hashfun', 'expr']),
         ('CLazy', ['con']), ('CLazyStruct', [L('con')]), ('CLazyArray', ['expr', 'con']),
     ],
+    'kprim': [('KPInt', ['bool', 'N', 'bool']), ('KPFloat', ['N', 'bool']), ('KPBits', ['Z']), ('KPVlq', [])],
+    'ksize': [('KSInt', ['Z']), ('KSExpr', ['expr']), ('KSName', [NAME])],
+    'ktype': [('KTPrim', ['kprim']), ('KTUser', [NAME]), ('KTStr', []), ('KTStrz', []), ('KTSwitch', ['expr', 'ktype', 'ktype']), ('KTMissing', [])],
+    'krepeat': [('KRNone', []), ('KRExpr', ['ksize']), ('KREos', []), ('KRUntil', ['expr'])],
+    'kfield': [('KField', [O(NAME), O('ktype'), O('ksize'), 'bool', O('bytes'), 'krepeat', O('expr'),
+                           O(P('byte', P('bool', P('bool', 'bool')))), O('byte'), O('encoding'), O(NAME), 'bool'])],
+    'kschema': [('KSchema', [L('kfield'), L(P(NAME, L('kfield'))), L(P(NAME, L(P('Z', NAME))))])],
     'request': [
         ('RParse', ['con', KW, 'bytes', 'N']),
         ('RBuild', ['con', 'val', KW]),
@@ -84,6 +91,9 @@ TYPES = {
         ('RLazy', ['con', KW, 'bytes', 'N', L('nat')]),
         ('RCParse', ['con', KW, 'bytes', 'N']),
         ('RCBuild', ['con', 'val', KW]),
+        ('RKsyEmit', ['con']),
+        ('RKsyInterp', ['kschema', KW, 'bytes']),
+        ('RKsyLayout', ['con', KW, 'bytes']),
     ],
     'lout': [('LVal', ['val', 'Z']), ('LErr', ['err'])],
     'step': [('SKey', [NAME]), ('SIdx', ['nat'])],
@@ -101,6 +111,8 @@ TYPES = {
         ('ROkBytes', ['bytes']),
         ('ROuts', [L('cout')]),
         ('ROkLazy', ['Z', L('lout')]),
+        ('ROkKsy', [O('kschema')]),
+        ('ROkFields', [L(P(P(P(O(NAME), 'Z'), 'Z'), 'val'))]),
         ('RErr', ['err', O(L(NAME))]),
     ],
 }
